@@ -22,7 +22,7 @@ from ..models import ws_model
 from ..models.request_model import variables_json
 from ..runner import Plan, RunResult, Violation
 from ..seams import seeded_world
-from ..simloop import SimDeadlock, SimLoop, SimStepCap, deterministic_gc, drain_loop
+from ..simloop import CONN_TAG, SimDeadlock, SimLoop, SimStepCap, deterministic_gc, drain_loop
 
 PROPERTY = "C13"
 LEVEL = "fault_enumeration"
@@ -261,14 +261,23 @@ def draw_config(case, ch: Choices):
     # the public configuration attributes of one client object are changed between two subscriptions (token rotation):
     # the subscriptions then run one after another and each must use what is configured when it opens
     cfg["sequential_reconfig"] = nsubs >= 2 and ch.chance("cfg.seqreconf", 1, 3)
+    # a third of the runs: nothing in what the client sends marks the subscription (no per-call marker header; the same
+    # per-call options for every subscription of the run) - connections are attributed through the simulated network
+    # instead, so that subscriptions opened with IDENTICAL options exist
+    cfg["unmarked"] = p.get("mode") != "enum" and ch.chance("cfg.unmarked", 1, 3)
     subs = []
     for i in range(nsubs):
         s: Dict[str, Any] = {}
         s["via"] = p.get("via") or ch.pick("sub.via", ["base", "gen_counter", "gen_item_added", "gen_searching"])
         s["call_headers"] = ch.pick("sub.ch", [None, {"X-Call": "k%d" % i}, {"X-Client": "override%d" % i}])
+        if cfg["unmarked"]:
+            s["call_headers"] = subs[0]["call_headers"] if subs else ch.pick("sub.ch_same", [None, None, {"X-Call": "same"}])
+            s["unmarked"] = True
         s["start_delay"] = ch.pick("sub.delay", [0.0, 0.0, 0.01, 2.0])
         s["vars"] = ch.draw("sub.vars", 6)
         s["lib_headers_kw"] = p.get("mode") != "enum" and ch.chance("sub.lib_headers_kw", 1, 6)
+        if cfg["unmarked"] and subs:
+            s["lib_headers_kw"] = subs[0]["lib_headers_kw"]
         # the consumer gives up while a step of the iterator is pending (wait_for time-out, task cancelled): same standing as a
         # consumer that leaves early - nothing more is asserted about it, everything about the other subscriptions
         s["cancel_after"] = None if p.get("mode") == "enum" else ch.pick("sub.cancel_after", [None] * 18 + [0.0, 0.02, 3.0])
@@ -331,8 +340,10 @@ def make_call(mods, variant, sub, client):
     pkg = _Pkg(mods["fx_async"] if variant == "plain" else mods["fx_async_otel"])
     kw = {}
     headers = dict(sub["call_headers"] or {})
-    headers["X-Sim-Sub"] = str(sub["index"])
-    kw["extra_headers"] = headers
+    if not sub.get("unmarked"):
+        headers["X-Sim-Sub"] = str(sub["index"])
+    if headers or not sub.get("unmarked"):
+        kw["extra_headers"] = headers
     if sub.get("lib_headers_kw"):
         # the caller also uses the websockets library's own keyword: the configured and per-call headers must still be sent
         kw["additional_headers"] = {"X-Lib-Keyword": "1"}
@@ -425,6 +436,9 @@ def simulate(case, ch: Choices, variant_override=None):
 
         async def handler(ws):
             hdr = ws.request.headers.get("X-Sim-Sub")
+            if hdr is None:
+                who = getattr(ws.transport, "opened_by", None)      # (unmarked runs: attributed by the simulated network)
+                hdr = str(who) if who is not None else None
             order = next(arrival)
             idx = int(hdr) if hdr is not None and hdr.isdigit() and int(hdr) < len(recs) else min(order, len(recs) - 1)
             rec = recs[idx]
@@ -569,6 +583,7 @@ def simulate(case, ch: Choices, variant_override=None):
                     shared.ws_origin = rc["origin"]
 
         async def _consume(sub, rec):
+            CONN_TAG.set(sub["index"])
             await asyncio.sleep(sub["start_delay"])
             it, opname, variables, root = make_call(mods, variant, sub, shared)   # harness code
             rec.call = (opname, variables, root)
@@ -609,6 +624,7 @@ def simulate(case, ch: Choices, variant_override=None):
                 for i in list(active):
                     rec = recs[i]
                     try:
+                        CONN_TAG.set(i)
                         item = await its[i].__anext__()
                         rec.yields.append((loop.next_seq(), item))
                         continue
@@ -1104,6 +1120,10 @@ def run_case(case, ch: Choices) -> RunResult:
             res.bump("probe.two_or_more_pings")
     res.bump("variant." + cfg["variant"])
     res.bump("subs.%d" % len(recs))
+    if cfg.get("unmarked"):
+        res.bump("runs.unmarked_subscriptions_attributed_by_the_network")
+        if len(recs) >= 2 and not cfg.get("sequential_reconfig"):
+            res.bump("probe.overlapping_subscriptions_opened_with_identical_options")
     res.simtime = info["simtime"] + info2["simtime"]
     res.nontrivial = nframes > 0 and any(r.opened for r in recs)
     shape = [(s["via"], [f["k"] for f in script_frames(s["script"])[0]], script_frames(s["script"])[1]) for s in cfg["subs"]]
